@@ -1,0 +1,27 @@
+//go:build verif
+
+package evaluator
+
+import "sync/atomic"
+
+// VerifFuelExhausted is the panic value raised when the evaluation budget is used up.
+type VerifFuelExhausted struct{}
+
+// verifFuel is the number of Eval calls left; negative means unlimited.
+var verifFuel int64 = -1
+
+// VerifSetFuel sets the evaluation budget (negative: unlimited).
+func VerifSetFuel(n int64) { atomic.StoreInt64(&verifFuel, n) }
+
+// VerifFuelLeft returns the remaining budget.
+func VerifFuelLeft() int64 { return atomic.LoadInt64(&verifFuel) }
+
+func verifTick() {
+	if atomic.LoadInt64(&verifFuel) < 0 {
+		return
+	}
+	if atomic.AddInt64(&verifFuel, -1) < 0 {
+		atomic.StoreInt64(&verifFuel, 0)
+		panic(VerifFuelExhausted{})
+	}
+}
